@@ -203,6 +203,21 @@ pub fn c06_tt(c: &mut Ctx, a: W, b: W) {
         }
     };
     let (ab, ba, _, eq_ab, eq_ba) = got;
+    if hx(a.0) == hx(b.0) && hx(a.1) == hx(b.1) {
+        // the same object on both sides
+        #[allow(clippy::eq_op)]
+        let selfcmp = guard(|| (ta == ta, ta != ta, ta.partial_cmp(&ta), ta <= ta, ta < ta));
+        match selfcmp {
+            Err(m) => c.viol("cmp/self", "panic", &ins, &[], m),
+            Ok((e, ne, pc, le, lt)) => {
+                let want_nan = has_nan(a);
+                let ok = if want_nan { !e && ne && pc.is_none() && !le && !lt } else { e == eq_ab && ne != eq_ab && pc == ab.6 && !lt };
+                if !ok {
+                    c.viol("cmp/self", "same_object_differs", &ins, &[e as u64, ord_code(pc)], "comparing a value with itself (same object) differs from comparing it with a bit-identical copy".into());
+                }
+            }
+        }
+    }
     // symmetry and consistency on the whole enlarged domain
     if eq_ab != eq_ba {
         c.viol("eq/TF,TF", "asymmetric", &ins, &[eq_ab as u64, eq_ba as u64], format!("a == b is {eq_ab} but b == a is {eq_ba}"));
@@ -213,12 +228,21 @@ pub fn c06_tt(c: &mut Ctx, a: W, b: W) {
     if va != vb {
         // min/max skip the invalid operand (whatever makes it invalid: overlap, infinity, NaN word)
         let good = if va { a } else { b };
-        for (nm, is_min) in [("min", true), ("max", false)] {
-            match guard(|| w(if is_min { ta.min(tb) } else { ta.max(tb) })) {
+        for (nm, is_min, route) in [("min", true, 0u8), ("max", false, 0), ("min", true, 1), ("max", false, 1), ("min", true, 2), ("max", false, 2)] {
+            match guard(|| {
+                w(match (is_min, route) {
+                    (true, 0) => ta.min(tb),
+                    (false, 0) => ta.max(tb),
+                    (true, 1) => <TwoFloat as num_traits::Float>::min(ta, tb),
+                    (false, 1) => <TwoFloat as num_traits::Float>::max(ta, tb),
+                    (true, _) => <TwoFloat as num_traits::float::FloatCore>::min(ta, tb),
+                    (false, _) => <TwoFloat as num_traits::float::FloatCore>::max(ta, tb),
+                })
+            }) {
                 Err(m) => c.viol(nm, "panic", &ins, &[], m),
                 Ok(r) => {
                     if !(hx(r.0) == hx(good.0) && hx(r.1) == hx(good.1)) {
-                        c.viol(nm, "invalid_not_skipped", &ins, &outs(r), "an invalid operand must be skipped".into());
+                        c.viol(nm, "invalid_not_skipped", &ins, &outs(r), format!("an invalid operand must be skipped (route {route}: 0 inherent, 1 Float, 2 FloatCore)"));
                     }
                 }
             }
@@ -244,8 +268,17 @@ pub fn c06_tt(c: &mut Ctx, a: W, b: W) {
             c.viol("cmp/TF,TF", "wrong_order_rev", &ins, &[ord_code(ba.6)], format!("exact comparison (reversed) is {:?}", o.reverse()));
         }
         // min / max
-        for (nm, is_min) in [("min", true), ("max", false)] {
-            let r = guard(|| w(if is_min { ta.min(tb) } else { ta.max(tb) }));
+        for (nm, is_min, route) in [("min", true, 0u8), ("max", false, 0), ("min", true, 1), ("max", false, 1), ("min", true, 2), ("max", false, 2)] {
+            let r = guard(|| {
+                w(match (is_min, route) {
+                    (true, 0) => ta.min(tb),
+                    (false, 0) => ta.max(tb),
+                    (true, 1) => <TwoFloat as num_traits::Float>::min(ta, tb),
+                    (false, 1) => <TwoFloat as num_traits::Float>::max(ta, tb),
+                    (true, _) => <TwoFloat as num_traits::float::FloatCore>::min(ta, tb),
+                    (false, _) => <TwoFloat as num_traits::float::FloatCore>::max(ta, tb),
+                })
+            });
             match r {
                 Err(m) => c.viol(nm, "panic", &ins, &[], m),
                 Ok(r) => {
@@ -1065,6 +1098,39 @@ pub fn c09(c: &mut Ctx) {
             if valid_ref(h, l) {
                 c09_back_all(c, (h, l));
                 c.count("f32_boundary_cases");
+            }
+        }
+        // NumCast::from for a source type that only knows its integer value (to_f64 left to num_traits' default
+        // is fine; here to_f64 is None): must still give the exact conversion of the i128 / u128 value
+        {
+            struct OnlyInt(i128);
+            impl ToPrimitive for OnlyInt {
+                fn to_i64(&self) -> Option<i64> {
+                    i64::try_from(self.0).ok()
+                }
+                fn to_u64(&self) -> Option<u64> {
+                    u64::try_from(self.0).ok()
+                }
+                fn to_i128(&self) -> Option<i128> {
+                    Some(self.0)
+                }
+                fn to_u128(&self) -> Option<u128> {
+                    u128::try_from(self.0).ok()
+                }
+                fn to_f64(&self) -> Option<f64> {
+                    None
+                }
+            }
+            let v = wide_values(&mut c.rng, 127) as i128 * if c.rng.coin() { 1 } else { -1 };
+            let ins = [v as u64, (v >> 64) as u64];
+            c.note("numcast/custom", &ins, v != 0);
+            match guard(|| (<TwoFloat as NumCast>::from(OnlyInt(v)).map(w), w(<TwoFloat as From<i128>>::from(v)))) {
+                Err(m) => c.viol("numcast/custom", "panic", &ins, &[], m),
+                Ok((a, b)) => {
+                    if !a.map(|a| hx(a.0) == hx(b.0) && hx(a.1) == hx(b.1)).unwrap_or(false) {
+                        c.viol("numcast/custom", "differs", &ins, &outs(b), "NumCast::from of a source without an f64 view differs from From<i128> of its value".into());
+                    }
+                }
             }
         }
         // usize / isize routes (64-bit target): must equal the u64 / i64 conversions
